@@ -82,6 +82,18 @@ def run_case(case):
                                                                                      (full % n_b).tolist()[:8]],
                            observed=[pi_.tolist()[:8], qi_.tolist()[:8]]))
             break
+    # repeated calls on the same object and input preservation
+    try:
+        arr2 = np.asarray(fg.get_full_grid_as_array(), dtype=float)
+        if not np.array_equal(arr, arr2):
+            vs.append(viol(pre + "|second_call", "get_full_grid_as_array differs between two calls on one object", case))
+        keep = arr.copy()
+        from_full_array_to_o_b_t(arr)
+        fg.get_position_index(np.arange(n))
+        if not np.array_equal(arr, keep) or not np.array_equal(np.asarray(fg.get_full_grid_as_array(), dtype=float), keep):
+            vs.append(viol(pre + "|mutation", "decomposition/index helpers modified the grid array", case))
+    except Exception as e:
+        vs.append(viol(pre + "|repeat_raises", f"{type(e).__name__}: {str(e)[:100]}", case))
     # decomposition
     try:
         o2, b2, t2 = from_full_array_to_o_b_t(arr)
